@@ -20,6 +20,7 @@ type Ctx struct {
 	lk    *locks.Analysis
 	eff   *effects.Analysis
 	roles *Roles
+	reach map[*ssa.Function]map[*ssa.Function]bool
 }
 
 // Locks returns engine L's result (computed once).
